@@ -31,7 +31,7 @@ theorem LOW_pos : 0 < Consts.h2_BUFFER_LOW_WATER := by decide
 /-- as `upd_finish`, with the extracted wait / release rules unfolded -/
 macro "upd_finish8" : tactic =>
   `(tactic| (simp only [upd, Str.closeBuf, Str.discard, Str.gone, unblockAll, Guards.bufferPushCmp, Guards.bufferPopRelease, Guards.Cmp.eval,
-                        Guards.sendDataEnds, Guards.bufferComplete, HIGH] at * <;>
+                        Guards.sendDataEnds, Guards.bufferComplete, Guards.bufferPopEmpty, Guards.bufferDrainClears, HIGH] at * <;>
       (repeat' split) <;> (try subst_vars) <;> (try simp_all) <;> (first | done | omega | grind)))
 
 /-- the bound on a stream's buffer, by where its sender is -/
@@ -50,70 +50,32 @@ theorem buf_step (c : Nat) (s s' : St) (o : Op) (h : Buf c s) (hp : sizeOk c o) 
       | exact hj
       | (have hall := h; unfold Buf at hall; simp only [sizeOk] at hp; upd_finish8)
 
-/-- a stream with a buffer was opened; the send task is inside `_send_data` only for an opened stream -/
-def Opened (s : St) : Prop := ∀ i, ((s.str i).hasBuf = true → (s.str i).opened = true) ∧ (s.task = .sending i → (s.str i).opened = true)
-
-theorem opened_step (s s' : St) (o : Op) (h : Opened s) (hs : step s o = some s') : Opened s' := by
-  intro j
-  have hj := h j
-  cases o <;> step_cases hs <;>
-    first
-      | exact hj
-      | (have hall := h; unfold Opened at hall; upd_finish)
-
-/-- while the send task waits for its DATA flush, an empty buffer of that stream has `_is_empty` set (the pop that emptied
-    it set it, and only a write clears it) -/
-def Sending (s : St) : Prop := ∀ i, s.task = .sending i → (s.str i).hasBuf = true → (s.str i).buf = 0 → (s.str i).emptyEv = true
-
-theorem sending_step (s s' : St) (o : Op) (h : Sending s) (ho : Opened s) (hs : step s o = some s') : Sending s' := by
-  intro j
-  have hj := h j
-  have hoj := ho j
-  cases o <;> step_cases hs <;>
-    first
-      | exact hj
-      | (have hall := h; have hallo := ho; unfold Sending at hall; unfold Opened at hallo; upd_finish)
-
-/-- an ended stream's `_is_empty` is set -/
-def FinE (s : St) : Prop := ∀ i, (s.str i).ended = true → (s.str i).emptyEv = true
-
-theorem finE_step (s s' : St) (o : Op) (h : FinE s) (hf : C09.Fin s) (hsd : Sending s) (hs : step s o = some s') : FinE s' := by
-  intro j
-  have hj := h j
-  have hfj := hf j
-  have hsj := hsd j
-  cases o <;> step_cases hs <;>
-    first
-      | exact hj
-      | (have hall := h; have hallf := hf; have halls := hsd; unfold FinE at hall; unfold C09.Fin at hallf; unfold Sending at halls; upd_finish)
-
 /-- a waiting sender whose event is clear still has a buffer the send task will come back to; a completed buffer never
     has a sender parked in `push` with a clear event -/
 def Wait (s : St) : Prop := ∀ i,
   ((s.str i).pusher = .inPush → (s.str i).pausedEv = false →
       (s.str i).hasBuf = true ∧ (s.str i).complete = false ∧ ((s.str i).buf > 0 ∨ (s.str i).blocked = false)) ∧
   ((s.str i).pusher = .inDrain → (s.str i).emptyEv = false →
-      (s.str i).hasBuf = true ∧ ((s.str i).buf > 0 ∨ (s.str i).blocked = false))
+      (s.str i).hasBuf = true ∧ ((s.str i).buf > 0 ∨ (s.str i).blocked = false ∨ s.task = .ending i))
 
-theorem wait_step (s s' : St) (o : Op) (h : Wait s) (ht : Tree s) (he : Ending s) (hf : C09.Fin s) (hfe : FinE s)
+theorem wait_step (s s' : St) (o : Op) (h : Wait s) (ht : Tree s) (he : Ending s) (hf : C09.Fin s)
     (hs : step s o = some s') : Wait s' := by
   obtain ⟨ht1, ht2⟩ := ht
   intro j
   have hj := h j
   have hej := he j
   have hfj := hf j
-  have hfej := hfe j
   have hH := HIGH_pos
   have hL := LOW_pos
   cases o <;> step_cases hs <;>
     first
       | exact hj
-      | (have hall := h; have halle := he; have hallf := hf; have hallfe := hfe
-         unfold Wait at hall; unfold Ending at halle; unfold C09.Fin at hallf; unfold FinE at hallfe; upd_finish8)
+      | (have hall := h; have halle := he; have hallf := hf
+         unfold Wait at hall; unfold Ending at halle; unfold C09.Fin at hallf; upd_finish8)
 
 /-- after `handle(Closed)`: every buffer is complete with both events' waiters released, and stays so -/
 def Closed (s : St) : Prop := s.closed = true → ∀ i,
-  ((s.str i).hasBuf = true → (s.str i).complete = true ∧ (s.str i).emptyEv = true) ∧
+  ((s.str i).hasBuf = true → (s.str i).complete = true ∧ (s.str i).emptyEv = true ∧ (s.str i).bufClosed = true) ∧
   ((s.str i).pusher = .inPush → (s.str i).pausedEv = true) ∧
   ((s.str i).pusher = .inDrain → (s.str i).emptyEv = true)
 
@@ -126,7 +88,7 @@ theorem closed_step (s s' : St) (o : Op) (h : Closed s) (hw : Wait s) (hs : step
 
 /-- a reset stream's buffer (unless its application is inside the reset itself) is closed: complete, `_is_empty` set -/
 def RstC (s : St) : Prop := ∀ i, (s.str i).libClosed = true → (s.str i).hasBuf = true → (s.str i).pusher ≠ .inAbandon →
-  (s.str i).complete = true ∧ (s.str i).emptyEv = true
+  (s.str i).complete = true ∧ (s.str i).emptyEv = true ∧ (s.str i).bufClosed = true
 
 theorem rstC_step (s s' : St) (o : Op) (h : RstC s) (hs : step s o = some s') : RstC s' := by
   intro j
@@ -152,9 +114,6 @@ theorem rel_step (s s' : St) (o : Op) (h : Rel s) (hw : Wait s) (hrc : RstC s) (
 
 structure Inv (c : Nat) (s : St) : Prop where
   base : C09.Inv s
-  opened : Opened s
-  sending : Sending s
-  finE : FinE s
   buf : Buf c s
   wait : Wait s
   closed : Closed s
@@ -164,13 +123,12 @@ structure Inv (c : Nat) (s : St) : Prop where
 def opOk8 (c : Nat) (s : St) (o : Op) : Prop := opOk s o ∧ sizeOk c o
 
 theorem inv_init (c : Nat) (cw : Int) (mf : Nat) (h : 0 < mf) : Inv c (init cw mf) := by
-  refine ⟨C09.inv_init cw mf h, ?_, ?_, ?_, ?_, ?_, ?_, ?_, ?_⟩ <;>
-    simp [init, Opened, Sending, FinE, Buf, Wait, Closed, RstC, Rel, HIGH_pos] <;> (have := HIGH_pos; omega)
+  refine ⟨C09.inv_init cw mf h, ?_, ?_, ?_, ?_, ?_⟩ <;>
+    simp [init, Buf, Wait, Closed, RstC, Rel, HIGH_pos] <;> (have := HIGH_pos; omega)
 
 theorem inv_step (c : Nat) (s s' : St) (o : Op) (h : Inv c s) (hp : opOk8 c s o) (hs : step s o = some s') : Inv c s' :=
-  ⟨C09.inv_step s s' o h.base hp.1 hs, opened_step s s' o h.opened hs, sending_step s s' o h.sending h.opened hs,
-   finE_step s s' o h.finE h.base.fin h.sending hs, buf_step c s s' o h.buf hp.2 hs,
-   wait_step s s' o h.wait h.base.tree h.base.ending h.base.fin h.finE hs, closed_step s s' o h.closed h.wait hs,
+  ⟨C09.inv_step s s' o h.base hp.1 hs, buf_step c s s' o h.buf hp.2 hs,
+   wait_step s s' o h.wait h.base.tree h.base.ending h.base.fin hs, closed_step s s' o h.closed h.wait hs,
    rstC_step s s' o h.rstc hs, rel_step s s' o h.rel h.wait h.rstc hs⟩
 
 theorem inv_run (c : Nat) (ops : List Op) : ∀ (s s' : St), Inv c s → allQ (opOk8 c) s ops → runOk s ops = some s' → Inv c s' :=
@@ -218,7 +176,11 @@ theorem waiting_means_no_credit (c : Nat) (s : St) (hr : Reachable8 c s) (hq : t
   have hbuf : (s.str i).hasBuf = true ∧ ((s.str i).buf > 0 ∨ (s.str i).blocked = false) := by
     rcases hw with ⟨h1, h2⟩ | ⟨h1, h2⟩
     · exact ⟨(hW.1 h1 h2).1, (hW.1 h1 h2).2.2⟩
-    · exact hW.2 h1 h2
+    · refine ⟨(hW.2 h1 h2).1, ?_⟩
+      rcases (hW.2 h1 h2).2 with h | h | h
+      · exact Or.inl h
+      · exact Or.inr h
+      · simp [hq.1] at h
   have hbl : (s.str i).blocked = true := hI.base.sleep hq.1 hq.2 i (hI.base.tree.1 i hbuf.1)
   have hpos : (s.str i).buf > 0 := by
     rcases hbuf.2 with h | h
@@ -280,7 +242,7 @@ theorem close_releases (c : Nat) (s : St) (hr : Reachable8 c s) (hc : s.closed =
   · simp [step, hp, hI.2.1 hp]
   · simp [step, hp, hI.2.2 hp]
   · step_cases hs <;> simp_all [upd]
-  · step_cases hs <;> simp_all [upd]
+  · step_cases hs <;> simp_all [upd, Guards.bufferDrainClears]
 
 /-- the same state with stream `i`'s sender made to wait (or not) -/
 def setPusher (s : St) (i : Nat) (p : PPc) : St := { s with str := upd s.str i { (s.str i) with pusher := p } }
